@@ -3,7 +3,7 @@
    regenerated from file.go / batch.go / iatBatch.go / validators.go on this run. *)
 From Coq Require Import ZArith NArith List Bool Permutation.
 Import ListNotations.
-From ACH Require Import TxCodes RevTable SegTable Segment SegmentFacts SegmentTable C11Obl.
+From ACH Require Import TxCodes RevTable SegTable Segment SegmentFacts SegmentSuccess SegmentTable C11Obl.
 Open Scope Z_scope.
 
 (* The credit / debit lists of the three switches of SegmentFile (standard, IAT, ADV)
@@ -39,3 +39,13 @@ Theorem C11_succeeds_refuted :
   /\ segment ST collision_file = SErr (EOutput VAscending).
 Proof. exact segment_collision. Qed.
 Print Assumptions C11_succeeds_refuted.
+
+(* ... and it is the only way to fail: for every file passing the modelled validation with
+   well-formed IAT / ADV batches, if the batch numbers File.Create leaves on the standard
+   batches of both outputs are ascending (numbers_ok; false for the witness above, vacuous
+   for ADV files), SegmentFile returns two files — to which C11_partition applies. *)
+Theorem C11_succeeds_partial : forall f,
+  validate ST f = None -> input_wf ST f = true -> numbers_ok ST f = true ->
+  exists cf df, segment ST f = SOk cf df.
+Proof. exact segment_succeeds_ok. Qed.
+Print Assumptions C11_succeeds_partial.
